@@ -175,7 +175,12 @@ def execute(dev):
                 for j, (x, y) in enumerate(zip(li, ls)):
                     d = paths.hausdorff(x.poly(), y.poly())
                     scale = max(1.0, abs(x.matrix[0]) + abs(x.matrix[2]), abs(x.matrix[1]) + abs(x.matrix[3]))
-                    if d > 2.0 * scale + paths.spacing(y.poly()) / 2:
+                    # at the default master glyf holds that master's own coordinates, rounded by the same compiler as in the static
+                    # build, and a cubic converted with the same number of segments gives the same quadratics: the two agree to
+                    # within rounding noise (0.75). Elsewhere gvar's delta optimisation (0.5) and a different segment count from
+                    # the joint cubic-to-quadratic conversion of the masters allow up to 2 units
+                    exact = i == pos.index(default) and len(x.poly()) == len(y.poly())
+                    if d > ((0.75 * scale) if exact else (2.0 * scale + paths.spacing(y.poly()) / 2)):
                         vs.append(bad("C18.outline-positions", f"master {i} (wght={p}) {[hex(c) for c in g.cps]} layer {j}: outline {d:.1f} units from its place in the static build"))
                     if x.tag != y.tag:
                         vs.append(bad("C18.layers", f"master {i} layer {j}: {x.tag} vs {y.tag}"))
@@ -202,7 +207,7 @@ def execute(dev):
                 vs.append(bad("C18.default-is-default-master", f"{[hex(c) for c in g.cps]}: base glyph differs from the default master's"))
             else:
                 cv, cd = vf["glyf"][nv].getCoordinates(vf["glyf"])[0], dfont["glyf"][nd].getCoordinates(dfont["glyf"])[0]
-                if len(cv) != len(cd) or any(abs(p1[0] - p2[0]) > 1 or abs(p1[1] - p2[1]) > 1 for p1, p2 in zip(cv, cd)):
+                if len(cv) != len(cd) or any(p1 != p2 for p1, p2 in zip(cv, cd)):
                     vs.append(bad("C18.default-is-default-master", f"{[hex(c) for c in g.cps]}: the font's default outline of {nv} is not the default master's"))
         # the clip box in force contains the interpolated geometry at every location
         lo, hi = min(pos), max(pos)
